@@ -497,6 +497,7 @@ fn expected_probes(prop: &str) -> Vec<&'static str> {
         "C13" => vec!["c13_alias_only_sent", "c13_alias_bound", "c13_alias_rebound", "c13_invalid_alias_received", "c13_alias_resolved_on_receive"],
         "C14" => vec!["c14_oversize_received", "oversize_stored_dropped"],
         "C15" => vec!["c15_pingreq_rearmed", "c15_server_rearmed", "c15_expiry_pingreq_send", "c15_expiry_timeout", "c15_cancel", "c15_pingreq_sent"],
+        "C20" => vec!["c20_range_exhausted", "c20_three_or_more_intervals", "c20_u32_extreme_range", "c20_single_value_range", "c20_enumerated_case"],
         "C19" => vec!["c19_disconnect_sent", "c19_connack_refusal_sent", "c19_keepalive_timeout", "c19_close_requested"],
         _ => vec![],
     }
